@@ -209,7 +209,19 @@ def r3(ctx, cfg):
         ld = [(b, t) for b, t in f.calls() if t["callee"]["key"] == "cw_storage_plus::Map::may_load"]
         ok = len(ld) == 1 and is_param(P.call_args(f, ld[0][1], ld[0][0])[2], "delegator_addr")
         ret = P.ret(f)
-        ok = ok and contains(ret, lambda x: x[0] == "param" and x[2] == "delegator_addr") and contains(ret, lambda x: x[0] == "some" and contains(x[1], lambda y: y[0] == "call" and y[1] == "cw_storage_plus::Map::may_load"))
+        # `match stored { Some(a) => a, None => delegator.clone() }`, `stored.unwrap_or_else(|| delegator.clone())`, ..: the
+        # returned address is the stored one or the delegator itself
+        def _stored(x):
+            return x[0] == "some" and contains(x[1], lambda y: y[0] == "call" and y[1] == "cw_storage_plus::Map::may_load")
+        def _unwrap_stored(x):
+            return x[0] == "call" and x[1] in ("std::option::Option::unwrap_or_else", "std::option::Option::unwrap_or") and x[2] and \
+                contains(x[2][0], lambda y: y[0] == "call" and y[1] == "cw_storage_plus::Map::may_load")
+        self_alt = contains(ret, lambda x: x[0] == "param" and x[2] == "delegator_addr")
+        if not self_alt:
+            for g0 in F.lexical(f.key):
+                if g0.kind == "closure" and contains(P.ret(g0), lambda x: x[0] == "upvar" and x[1] == "delegator_addr" or (x[0] == "param" and x[2] == "delegator_addr")):
+                    self_alt = True
+        ok = ok and self_alt and (contains(ret, _stored) or contains(ret, _unwrap_stored))
         ctx.ob(R, f.key, "withdraw-address=stored-or-self", ok, "get_withdraw_address is not `stored address or the delegator itself`", fn=f, sample="WITHDRAW_ADDRESS[delegator] or delegator")
 
 
